@@ -223,6 +223,13 @@ type Result struct {
 	Notes              []string       `json:"notes,omitempty"`
 	WallS              float64        `json:"wall_s"`
 	Extra              map[string]interface{} `json:"extra,omitempty"`
+	// a sample of (request, answer of the extracted driver) pairs, re-evaluated inside Coq by vm_compute in the thorough tier
+	Kernel []KernelCase `json:"kernel_sample,omitempty"`
+}
+
+type KernelCase struct {
+	Line string `json:"line"`
+	Out  string `json:"out"`
 }
 
 type Ctx struct {
@@ -346,6 +353,11 @@ func (c *Ctx) record(cs Case, m, s string) {
 	}
 	if len(c.Res.Samples) < 6 && c.Res.Evaluations%97 == 1 {
 		c.Res.Samples = append(c.Res.Samples, map[string]string{"request": trunc(key, 400), "impl": trunc(cs.Impl, 400), "tag": cs.Tag})
+	}
+	if len(c.Res.Kernel) < 60 && c.Res.Evaluations%53 == 7 {
+		if l := cs.Req.Line("m."); len(l) < 1200 && len(m) < 4000 {
+			c.Res.Kernel = append(c.Res.Kernel, KernelCase{l, m})
+		}
 	}
 	is := cs.ImplSpec
 	if is == "" {
